@@ -515,6 +515,9 @@ func (w *Worker) concretize(t *Term, tag string) uint64 {
 		}
 		return t.C
 	}
+	if v, ok := w.concCache[t.ID]; ok {
+		return v // the path condition already pins this term
+	}
 	w.st.states++
 	var excl []uint64
 	if w.inPrefix() {
@@ -524,6 +527,7 @@ func (w *Worker) concretize(t *Term, tag string) uint64 {
 			w.dpos++
 			w.decs = append(w.decs, d)
 			w.assertPC(w.tt.Eq(t, w.tt.Const(t.W, d.Pick)))
+			w.concCache[t.ID] = d.Pick
 			return d.Pick
 		case DecValueNot:
 			if w.dpos != len(w.prefix)-1 {
@@ -560,9 +564,13 @@ func (w *Worker) concretize(t *Term, tag string) uint64 {
 		val = model[probe.Name] & maskB(t.W)
 		w.model = model
 	}
-	// queue the search for further values
+	// queue the search for further values — unless the solver shows there is none (saves a whole re-execution)
 	nexcl := append(append([]uint64{}, excl...), val)
-	w.ex.push(append(w.decs[:len(w.decs):len(w.decs)], Decision{Kind: DecValueNot, Excl: nexcl, Tag: tag}))
+	more := w.tt.And(cond, w.tt.Not(w.tt.Eq(t, w.tt.Const(t.W, val))))
+	if r, _ := w.solver.Check(more, nil); r != Unsat {
+		w.ex.push(append(w.decs[:len(w.decs):len(w.decs)], Decision{Kind: DecValueNot, Excl: nexcl, Tag: tag}))
+	}
+	w.concCache[t.ID] = val
 	w.decs = append(w.decs, Decision{Kind: DecValue, Pick: val, Tag: tag})
 	w.dpos = len(w.decs)
 	if w.dpos < len(w.prefix) {
